@@ -1,17 +1,17 @@
 SPECIFICATION Spec
 CONSTANTS
-  Annots <- AnAll
-  OvChoices <- OvFull
-  DfChoices <- DfSim
+  Annots <- AnNone
+  OvChoices <- OvOne
+  DfChoices <- DfZero
   SpChoices <- SpBoth
   BoundVals = {24, 0}
-  MaxFuncs = 4
-  MaxParams = 40
-  MaxTotal = 40
-  MaxBound = 2
-  MaxVariants = 0
-  MinEmit = 12
-  SimMode = TRUE
+  MaxFuncs = 3
+  MaxParams = 2
+  MaxTotal = 3
+  MaxBound = 1
+  MaxVariants = 1
+  MinEmit = 1
+  SimMode = FALSE
 INVARIANT InvWellFormed
 INVARIANT InvTiles
 INVARIANT InvOrdered
